@@ -202,6 +202,9 @@ class ExprMixin:
         key = (ci.name, name)
         if key in self._ptype_cache:
             return self._ptype_cache[key]
+        if name == "_z3_assertions":
+            # filled one z3.BoolRef at a time by NamedUIDObject.append_z3_assertion (R-BASE-STORE checks that)
+            return ("list", ("z3", "BoolRef"))
         res = []
         for c in ci.mro:
             for fn in c.methods.values():
